@@ -1439,14 +1439,14 @@ Proof.
     change (j_objs (init_j db)) with ((λ d, new_object (Some (d_acct d))) <$> db).
     change (accts (r_cur (init_r db))) with
       ((λ d, {| ra := d_acct d; r_stor := d_stor d; r_cstor := d_stor d; r_new := false; r_sd := false |}) <$> db).
-    rewrite !lookup_fmap. destruct (db !! a) as [d|] eqn:E; [|done].
+    rewrite !lookup_fmap. destruct (db !! a) as [d|] eqn:E; rewrite ?E; [|exact I].
     change (obj_rel (init_j db) a (new_object (Some (d_acct d)))
               {| ra := d_acct d; r_stor := d_stor d; r_cstor := d_stor d; r_new := false; r_sd := false |}).
     assert (Hc : ∀ k, committed (init_j db) a (new_object (Some (d_acct d))) k = sget (d_stor d) k).
     { intros k. unfold committed, db_stor, new_object. cbn [o_pending]. rewrite lookup_empty.
       change (j_destruct (init_j db)) with (∅ : gset addr). change (j_db (init_j db)) with db.
       rewrite E. by case_bool_decide. }
-    split_and!; try done. intros k. unfold get_state, new_object. cbn [o_dirty]. rewrite lookup_empty. apply Hc.
+    split_and!; try done; intros k; unfold get_state, new_object; cbn [o_dirty]; rewrite lookup_empty; apply Hc.
   - done.
   - done.
   - intros a. change (j_ala (init_j db)) with (∅ : gmap addr Z). rewrite lookup_empty.
@@ -1487,15 +1487,47 @@ Proof.
   assert (Ho : ∀ a, match j_objs j !! a, accts c !! a with
                     | Some o, Some x => obj_rel j a o x | None, None => True | _, _ => False end)
     by apply R.
-  destruct q; simpl; try (specialize (Ho a); destruct (j_objs j !! a) as [o|], (accts c !! a) as [x|]; try done;
-    destruct Ho as (D1 & D2 & D3 & D4 & D5); unfold obj_empty; rewrite ?D1 ?D2 ?D3 ?D4 ?D5; try done).
-  - f_equal. apply bool_decide_ext. split; intros [? ?]; eauto.
+  assert (Hacc : ∀ a (f : option sobj → answer) (g : option racct → answer),
+            (∀ o x, obj_rel j a o x → f (Some o) = g (Some x)) → f None = g None →
+            f (j_objs j !! a) = g (accts c !! a)).
+  { intros a f g H1 H2. specialize (Ho a). destruct (j_objs j !! a) as [o|], (accts c !! a) as [x|]; try done.
+    by apply H1. }
+  destruct q as [a|a|a|a|a|a|a k|a k|a k|a|a k| |a|a|th]; simpl.
+  - specialize (Ho a). f_equal. apply bool_decide_ext.
+    destruct (j_objs j !! a), (accts c !! a); try done; split; intros [? ?]; eauto; done.
+  - apply (Hacc a (λ o, AB match o with Some o => obj_empty o | None => true end)
+                  (λ x, AB match x with Some x => acct_empty (ra x) | None => true end)); [|done].
+    intros o x (D1 & _). unfold obj_empty. by rewrite D1.
+  - apply (Hacc a (λ o, AN match o with Some o => a_bal (o_data o) | None => 0 end)
+                  (λ x, AN match x with Some x => a_bal (ra x) | None => 0 end)); [|done].
+    intros o x (D1 & _). by rewrite D1.
+  - apply (Hacc a (λ o, AN match o with Some o => a_nonce (o_data o) | None => 0 end)
+                  (λ x, AN match x with Some x => a_nonce (ra x) | None => 0 end)); [|done].
+    intros o x (D1 & _). by rewrite D1.
+  - apply (Hacc a (λ o, AN match o with Some o => a_code (o_data o) | None => 0 end)
+                  (λ x, AN match x with Some x => a_code (ra x) | None => 0 end)); [|done].
+    intros o x (D1 & _). by rewrite D1.
+  - apply (Hacc a (λ o, AN match o with Some o => a_code (o_data o) + 1 | None => 0 end)
+                  (λ x, AN match x with Some x => a_code (ra x) + 1 | None => 0 end)); [|done].
+    intros o x (D1 & _). by rewrite D1.
+  - apply (Hacc a (λ o, AN match o with Some o => get_state j a o k | None => 0 end)
+                  (λ x, AN match x with Some x => sget (r_stor x) k | None => 0 end)); [|done].
+    intros o x (_ & D2 & _). by rewrite D2.
+  - apply (Hacc a (λ o, AN match o with Some o => committed j a o k | None => 0 end)
+                  (λ x, AN match x with Some x => sget (r_cstor x) k | None => 0 end)); [|done].
+    intros o x (_ & _ & D3 & _). by rewrite D3.
   - unfold tget. by rewrite (rc_tstor _ _ _ R).
   - f_equal. apply bool_decide_ext. apply R.
   - f_equal. destruct (al_contains_slot j a k) eqn:E.
     + symmetry. apply bool_decide_eq_true. by apply R.
     + symmetry. apply bool_decide_eq_false. intros H. apply R in H. congruence.
   - f_equal. apply R.
+  - apply (Hacc a (λ o, AB match o with Some o => o_sd o | None => false end)
+                  (λ x, AB match x with Some x => r_sd x | None => false end)); [|done].
+    intros o x (_ & _ & _ & D4 & _). by rewrite D4.
+  - apply (Hacc a (λ o, AB match o with Some o => o_new o | None => false end)
+                  (λ x, AB match x with Some x => r_new x | None => false end)); [|done].
+    intros o x (_ & _ & _ & _ & D5). by rewrite D5.
   - f_equal. apply R.
 Qed.
 
@@ -1507,3 +1539,22 @@ Proof.
   intros H. destruct (run_refines ops _ _ (Inv_init db) H) as [I Ho].
   split_and!; [intros q; by apply Inv_query|done|apply I].
 Qed.
+
+(* wf holds at every intermediate state of a guarded run from a related pair, so the
+   exact-restore theorem needs no per-state hypothesis *)
+Fixpoint core_hist (j : jstate) (ops : list op) : Prop :=
+  match ops with
+  | [] => True
+  | o :: rest => core_op o = true ∧ op_ok j o = true ∧ no_sticky j o ∧ core_hist (step_j j o).1 rest
+  end.
+
+Lemma core_hist_run_ok ops : ∀ j r, Inv j r → core_hist j ops → run_ok j ops.
+Proof.
+  induction ops as [|o rest IH]; intros j r I H; [done|].
+  destruct H as (Hc & Hok & Hst & Hrest). simpl. split_and!; try done; [apply I|].
+  destruct (step_refines j r o I Hok Hst) as [_ I']. by eapply IH.
+Qed.
+
+Theorem restore_run_inv j r ops :
+  Inv j r → core_hist j ops → revert_to (length (j_entries j)) (run_j j ops) = j.
+Proof. intros I H. apply restore_run. by eapply core_hist_run_ok. Qed.
